@@ -68,6 +68,10 @@ Definition oracle_case (k : case) : bool :=
       (if o_failed o || inproc then true
        else Bool.eqb https (o_handler_peer_auth o) && o_handler_peer_addr_set o &&
             (if want then Bool.eqb https (o_peer_auth o) &&
-                          match o_peer_addr o with Some a => negb (String.eqb a "") | None => false end
+                          (* the remote address: the URL's host and port, the scheme's default port when it names none *)
+                          match o_peer_addr o with
+                          | Some a => String.eqb a (if has_port then host else (host ++ (if https then ":443" else ":80"))%string)
+                          | None => false
+                          end
              else true))
   end.
